@@ -65,7 +65,7 @@ func runC19(c *fw.C) {
 		if err != nil {
 			return
 		}
-		if len(top.Keys) >= 2 || try >= 4 {
+		if len(top.Keys) >= 2 || try >= 4 || c.Idx%4 == 3 { // every 4th case takes whatever comes, single-key top nodes included
 			break
 		}
 	}
